@@ -235,14 +235,72 @@ func lenLowerBound(guards []Atom, s ssa.Value) int64 {
 			if k+1 > L {
 				L = k + 1
 			}
+		case token.NEQ:
+			// a length is never negative: len(s) != 0 is len(s) >= 1
+			if k == 0 && L < 1 {
+				L = 1
+			}
 		}
 	}
 	return L
 }
 
 // provesLE: guards imply e <= len(s) (strict: e < len(s)).
+type phiBoundKey struct {
+	ph     *ssa.Phi
+	strict bool
+}
+
+// provesLEBusy: bounds being established by induction (a strict bound in progress also covers the
+// non-strict question, never the other way round)
+var provesLEBusy = map[phiBoundKey]bool{}
+
 func provesLE(fn *ssa.Function, at *ssa.BasicBlock, guards []Atom, e ssa.Value, s ssa.Value, strict bool) bool {
 	e = stripConv(e)
+	// e + 1 <= len(s)  <=>  e < len(s)
+	if b, ok := e.(*ssa.BinOp); ok && b.Op == token.ADD && !strict {
+		x, k := b.X, b.Y
+		if c, ok := constInt(k); !ok || c != 1 {
+			x, k = b.Y, b.X
+		}
+		if c, ok := constInt(k); ok && c == 1 {
+			if provesLE(fn, at, guards, x, s, true) {
+				return true
+			}
+		}
+	}
+	// a variable that takes several values (a counter advanced on some paths): the bound holds if it
+	// holds for every value that flows in, judged with what is known on the edge it flows in by; the
+	// variable itself, met again around a loop, is assumed to satisfy it (induction)
+	if ph, ok := e.(*ssa.Phi); ok && !provesLEBusy[phiBoundKey{ph, strict}] && !(!strict && provesLEBusy[phiBoundKey{ph, true}]) && len(ph.Edges) <= 6 {
+		provesLEBusy[phiBoundKey{ph, strict}] = true
+		all := true
+		for i, v := range ph.Edges {
+			if stripConv(v) == ssa.Value(ph) {
+				continue
+			}
+			pred := ph.Block().Preds[i]
+			gs := append([]Atom{}, dominatingGuards(pred)...)
+			if iff, isIf := pred.Instrs[len(pred.Instrs)-1].(*ssa.If); isIf && len(pred.Succs) == 2 && pred.Succs[0] != pred.Succs[1] {
+				if a := atomOf(iff.Cond); a.Kind == "cmp" {
+					if pred.Succs[1] == ph.Block() {
+						a.Op = negOp(a.Op)
+					}
+					gs = append(gs, a)
+				}
+			}
+			if !provesLE(fn, pred, gs, v, s, strict) {
+				all = false
+				break
+			}
+		}
+		delete(provesLEBusy, phiBoundKey{ph, strict})
+		if all {
+			return true
+		}
+	} else if ok && (provesLEBusy[phiBoundKey{ph, strict}] || (!strict && provesLEBusy[phiBoundKey{ph, true}])) {
+		return true
+	}
 	isLen := func(v ssa.Value) bool {
 		if ms, ok := s.(*ssa.MakeSlice); ok && sameValue(v, ms.Len, 0) {
 			return true
@@ -317,6 +375,42 @@ func provesLE(fn *ssa.Function, at *ssa.BasicBlock, guards []Atom, e ssa.Value, 
 				if k < L || (!strict && k <= L) {
 					return true
 				}
+			}
+		}
+	}
+	// floor-division lemma: e = (i+c)*B, c in {0,1}, under a dominating i < N with N = len(s)/B (or
+	// the length of a slice made with that many elements): (i+1)*B <= N*B <= len(s)
+	if x, B, ok := mulConst(e); ok && !strict {
+		i := stripConv(x)
+		if ad, isAdd := i.(*ssa.BinOp); isAdd && ad.Op == token.ADD {
+			if k, ok := constInt(ad.Y); ok && k == 1 {
+				i = stripConv(ad.X)
+			} else if k, ok := constInt(ad.X); ok && k == 1 {
+				i = stripConv(ad.Y)
+			}
+		}
+		isQuot := func(v ssa.Value) bool {
+			v = stripConv(v)
+			// len(m) for a slice m made with len(s)/B elements
+			if l := lenOf(v); l != nil {
+				if ms, ok := stripConv(l).(*ssa.MakeSlice); ok {
+					v = stripConv(ms.Len)
+				}
+			}
+			q, ok := v.(*ssa.BinOp)
+			if !ok || q.Op != token.QUO {
+				return false
+			}
+			k, ok := constInt(q.Y)
+			return ok && k == B && isLen(stripConv(q.X))
+		}
+		for _, g := range guards {
+			gx, gy, op := stripConv(g.X), stripConv(g.Y), g.Op
+			if sameValue(gy, i, 0) {
+				gx, gy, op = gy, gx, swapOp(op)
+			}
+			if sameValue(gx, i, 0) && op == token.LSS && isQuot(gy) {
+				return true
 			}
 		}
 	}
@@ -537,6 +631,19 @@ func unguardedAccesses(p *Program, fn *ssa.Function) (sites int, hits []Finding)
 					if ok1 && ok2 && hi-lo >= n {
 						continue
 					}
+					// s[i*B : (i+1)*B]: exactly B elements
+					if x1, b1, okh := mulConst(sl.High); okh {
+						if x0, b0, okl := mulConst(sl.Low); okl && b0 == b1 && b0 >= n {
+							if ad, ok := stripConv(x1).(*ssa.BinOp); ok && ad.Op == token.ADD {
+								if k, ok := constInt(ad.Y); ok && k == 1 && sameValue(ad.X, x0, 0) {
+									continue
+								}
+								if k, ok := constInt(ad.X); ok && k == 1 && sameValue(ad.Y, x0, 0) {
+									continue
+								}
+							}
+						}
+					}
 				}
 				if lenLowerBound(get(), x.X) >= n {
 					continue
@@ -582,4 +689,19 @@ func isMinFunc(f *ssa.Function) bool {
 		return t == y && e == x
 	}
 	return false
+}
+
+// mulConst: v = x * B or B * x with a constant B > 0.
+func mulConst(v ssa.Value) (ssa.Value, int64, bool) {
+	m, ok := stripConv(v).(*ssa.BinOp)
+	if !ok || m.Op != token.MUL {
+		return nil, 0, false
+	}
+	if k, ok := constInt(m.Y); ok && k > 0 {
+		return m.X, k, true
+	}
+	if k, ok := constInt(m.X); ok && k > 0 {
+		return m.Y, k, true
+	}
+	return nil, 0, false
 }
